@@ -36,6 +36,9 @@ pub enum Part {
     /// heap binaries reached only indirectly (inside a captured tuple / a captured closure / a
     /// closure returned as a result) cross a process boundary
     ClosureNested { a: u8, b: u8, form: u8 },
+    /// `! [c, t]` times out while c waits for a message; then the message is sent and `!c`
+    /// awaits it again while it is still running; its result is a heap binary
+    TimeoutThenAwait { n: u8, timeout: u8, twice: bool },
     /// several processes await one still-running process (busy, or gated on a message from main)
     SharedAwait { work: u16, awaiters: u8, gated: bool },
     /// a select that lists a timeout or an awaited helper BEFORE a filtered receive, with heap
@@ -50,13 +53,16 @@ impl Part {
         matches!(self, Part::TwoFilters { .. } | Part::PrioFilter { .. })
     }
     pub fn heap_heavy(&self) -> bool {
-        matches!(self, Part::BinFork { .. } | Part::BinStream { .. } | Part::SpawnCaps { .. } | Part::AwaitTwiceBin { .. } | Part::FilterBin { .. } | Part::TwoFilters { .. } | Part::MailboxLeftover { .. } | Part::ClosureNested { .. } | Part::PrioFilter { .. })
+        matches!(self, Part::BinFork { .. } | Part::BinStream { .. } | Part::SpawnCaps { .. } | Part::AwaitTwiceBin { .. } | Part::FilterBin { .. } | Part::TwoFilters { .. } | Part::MailboxLeftover { .. } | Part::ClosureNested { .. } | Part::PrioFilter { .. } | Part::TimeoutThenAwait { .. })
     }
 }
 
 #[derive(Clone, Debug)]
 pub struct GProg {
     pub parts: Vec<Part>,
+    /// Some(n): the program's very last instruction is the send of a fresh binary (n filler bytes)
+    /// to a sink process; the entry result is then the sink's handle
+    pub final_send: Option<u8>,
 }
 
 pub fn part() -> impl Strategy<Value = Part> {
@@ -85,17 +91,18 @@ pub fn heap_part() -> impl Strategy<Value = Part> {
         3 => (prop::collection::vec(0u8..6, 1..6), 0u8..6, 0u8..6).prop_map(|(sizes, l1, l2)| Part::TwoFilters { sizes, l1, l2 }),
         2 => (prop::collection::vec(0u8..8, 1..5), 0u8..3).prop_map(|(sizes, take)| Part::MailboxLeftover { sizes, take }),
         3 => (0u8..12, 0u8..12, 0u8..16).prop_map(|(a, b, form)| Part::ClosureNested { a, b, form }),
+        3 => (0u8..12, 1u8..20, any::<bool>()).prop_map(|(n, timeout, twice)| Part::TimeoutThenAwait { n, timeout, twice }),
         3 => (prop::collection::vec(0u8..6, 1..5), prop_oneof![0u16..10, 10u16..200], 0u8..30, 0u8..6, any::<bool>()).prop_map(|(sizes, helper_work, timeout, want, await_first)| Part::PrioFilter { sizes, helper_work, timeout, want, await_first }),
         1 => (prop_oneof![0u16..40, 40u16..400], any::<bool>()).prop_map(|(work, twice)| Part::LateAwait { work, twice }),
     ]
 }
 
 pub fn heap_prog() -> impl Strategy<Value = GProg> {
-    prop::collection::vec(heap_part(), 1..4).prop_map(|parts| GProg { parts })
+    (prop::collection::vec(heap_part(), 1..4), prop::option::weighted(0.2, 0u8..9)).prop_map(|(parts, final_send)| GProg { parts, final_send })
 }
 
 pub fn gprog() -> impl Strategy<Value = GProg> {
-    prop::collection::vec(part(), 1..4).prop_map(|parts| GProg { parts })
+    prop::collection::vec(part(), 1..4).prop_map(|parts| GProg { parts, final_send: None })
 }
 
 pub const PRELUDE: &str = "\
@@ -128,6 +135,8 @@ pub struct Rendered {
     pub has_messages: bool,
     pub has_binaries: bool,
     pub has_late_await: bool,
+    /// bytes (as printed) the sink of a final send must end up with
+    pub final_send_expected: Option<String>,
 }
 
 pub fn render(g: &GProg) -> Rendered {
@@ -197,6 +206,20 @@ pub fn render(g: &GProg) -> Rendered {
                     processes += 1;
                 }
                 lines.push(format!("{} = !{}_{depth}", v("r"), v("ac")));
+                results.push(v("r"));
+            }
+            Part::TimeoutThenAwait { n, timeout, twice } => {
+                has_binaries = true;
+                has_messages = true;
+                // the child blocks until it is told to go, then works a little and builds a binary
+                lines.push(format!("{} = @#{{ ! [#'int] =k, 30 w =y, k mkbin }}", v("ta")));
+                processes += 1;
+                lines.push(format!("! [{}, {timeout}] =t{pi}a", v("ta")));
+                if *twice {
+                    lines.push(format!("! [{}, 1] =t{pi}b", v("ta")));
+                }
+                lines.push(format!("{n} {}", v("ta")));
+                lines.push(format!("{} = !{}", v("r"), v("ta")));
                 results.push(v("r"));
             }
             Part::SharedAwait { work, awaiters, gated } => {
@@ -408,6 +431,17 @@ pub fn render(g: &GProg) -> Rendered {
     if needs_me {
         lines.insert(1, "me = &.".to_string());
     }
-    lines.push(format!("[{}]", results.join(", ")));
-    Rendered { source: lines.join(",\n"), processes, has_messages, has_binaries, has_late_await }
+    let mut final_send_expected = None;
+    match g.final_send {
+        None => lines.push(format!("[{}]", results.join(", "))),
+        Some(n) => {
+            // the results are still computed (and dropped); the last step is the send itself
+            lines.insert(1, "fsink = @#{ ! [#'bin] }".to_string());
+            processes += 1;
+            lines.push(format!("zres = [{}]", results.join(", ")));
+            lines.push(format!("[[0xee, {n}] __binary_repeat__, 0x5a5a5a] __binary_concat__ fsink"));
+            final_send_expected = Some(format!("0x{}5a5a5a", "ee".repeat(n as usize)));
+        }
+    }
+    Rendered { source: lines.join(",\n"), processes, has_messages, has_binaries, has_late_await, final_send_expected }
 }
